@@ -398,6 +398,7 @@ class FsRun:
                     rm(s)
                 elif s in t:
                     sub = {q: v for q, v in t.items() if fm.is_under(q, s)}
+                    sub[s] = kind  # the flavour of the moved entry itself is the event's
                     rm(s)
                     rm(d)
                     for q, v in sub.items():
